@@ -36,7 +36,9 @@ def run_canaries(prop, tier, jobs=None):
             info.setdefault("not_applicable", []).append(c["id"])
             continue
         info["run"] += 1
-        if rc == 1:
+        refuted = ((ev or {}).get("coverage", {}).get("refuted") or 0) > 0
+        if rc == 1 or (rc == 3 and refuted):
+            # (an obligation failed; a second lemma instance that also ran into an error does not undo that)
             info["detected"] += 1
         else:
             info["missed"].append({"id": c["id"], "exit": rc, "messages": (ev or {}).get("coverage", {}).get("messages", [])[:5]})
